@@ -61,6 +61,12 @@ func ensures(c *core.Ctx, rule, fnSpec, exitSpec string, reqs []Req) {
 	if f == nil {
 		return
 	}
+	ensuresFn(c, rule, f, fnSpec, exitSpec, reqs)
+}
+
+// ensuresFn is ensures for an already resolved function (fnSpec is only the
+// name used in the obligation keys).
+func ensuresFn(c *core.Ctx, rule string, f *ssa.Function, fnSpec, exitSpec string, reqs []Req) {
 	a := c.E.Analyze(f)
 	exits, err := a.Exits(exitSpec)
 	if err != nil {
@@ -137,11 +143,99 @@ type callSite struct {
 	Fn    *ssa.Function
 	Instr ssa.CallInstruction
 	Label string
+	// Via: the chain of same-package helper calls leading from the function the
+	// search started in to Fn (empty when the call is written in that function
+	// or one of its closures). Rules see through helpers: extracting a few lines
+	// into an unexported function must not hide a call site from its rule.
+	Via []viaStep
+}
+
+type viaStep struct {
+	Site ssa.CallInstruction
+	In   *ssa.Function
+}
+
+// Facts: the must-hold facts before the call, in the terms of the function
+// the search started in: the facts before the site itself, rebound through
+// each helper call's arguments, joined with the facts before that helper call.
+func (s callSite) Facts(c *core.Ctx) ens.FactSet {
+	fs := c.E.Analyze(s.Fn).FactsAt(s.Instr)
+	if fs == nil || len(s.Via) == 0 {
+		return fs
+	}
+	fs = fs.Clone()
+	for i := len(s.Via) - 1; i >= 0; i-- {
+		st := s.Via[i]
+		ca := c.E.Analyze(st.In)
+		var args []*ens.Node
+		for _, a := range st.Site.Common().Args {
+			args = append(args, ca.D.D(a))
+		}
+		out := ens.FactSet{}
+		for _, f := range fs {
+			out.Add(f.Subst(args, ""))
+		}
+		outer := ca.FactsAt(st.Site)
+		if outer == nil {
+			return nil
+		}
+		for _, f := range outer {
+			out.Add(f)
+		}
+		fs = out
+	}
+	return fs
+}
+
+// Node: the call (or one operand of it) in the terms of the starting function.
+func (s callSite) rebind(c *core.Ctx, n *ens.Node) *ens.Node {
+	for i := len(s.Via) - 1; i >= 0; i-- {
+		st := s.Via[i]
+		ca := c.E.Analyze(st.In)
+		var args []*ens.Node
+		for _, a := range st.Site.Common().Args {
+			args = append(args, ca.D.D(a))
+		}
+		n = n.Subst(args)
+	}
+	return n
+}
+
+// Arg: the i-th operand of the call in the terms of the starting function.
+func (s callSite) Arg(c *core.Ctx, i int) *ens.Node {
+	return s.rebind(c, c.E.Analyze(s.Fn).D.D(s.Instr.Common().Args[i]))
+}
+
+// Call: the whole call node in the terms of the starting function.
+func (s callSite) Call(c *core.Ctx) *ens.Node {
+	return s.rebind(c, c.E.Analyze(s.Fn).D.Call(s.Instr))
+}
+
+func (s callSite) viaText() string {
+	if len(s.Via) == 0 {
+		return ""
+	}
+	var names []string
+	for _, v := range s.Via {
+		names = append(names, callLabel(v.Site.Common()))
+	}
+	return " (via " + strings.Join(names, " → ") + ")"
 }
 
 // callsIn lists the call sites in f (and nested closures) whose callee label
-// matches the glob.
+// matches the glob, looking through same-package helper functions (depth ≤ 2).
 func callsIn(f *ssa.Function, glob string) []callSite {
+	return callsDeep(f, glob, nil, map[*ssa.Function]bool{f: true}, 0)
+}
+
+// noDescend: helpers that are anchors of rules of their own; a search started
+// in their caller does not look inside them (their sites have their own
+// obligations, with their own required facts).
+var noDescend = map[string]string{
+	"ssv/protocol/v2/ssv/runner.BaseRunner.resolveDuplicateSignature": "C05-R3 new-sig-verified is the rule for its AddSignature site",
+}
+
+func callsDeep(f *ssa.Function, glob string, via []viaStep, seen map[*ssa.Function]bool, depth int) []callSite {
 	var out []callSite
 	for _, g := range funcsWithAnon(f) {
 		for _, b := range g.Blocks {
@@ -152,8 +246,32 @@ func callsIn(f *ssa.Function, glob string) []callSite {
 				}
 				l := callLabel(ci.Common())
 				if ens.Glob(glob, l) {
-					out = append(out, callSite{g, ci, l})
+					out = append(out, callSite{Fn: g, Instr: ci, Label: l, Via: via})
+					continue
 				}
+				if depth >= 2 {
+					continue
+				}
+				if _, isCall := in.(*ssa.Call); !isCall {
+					continue // go / defer of a helper: different moment, not "the same place"
+				}
+				h := ci.Common().StaticCallee()
+				if h == nil || len(h.Blocks) == 0 || h.Pkg == nil || g.Pkg == nil && f.Pkg == nil || seen[h] || h.Parent() != nil {
+					continue
+				}
+				if h.Pkg != topFunc(f).Pkg {
+					continue
+				}
+				if _, stop := noDescend[ens.SSAFuncName(h)]; stop {
+					continue
+				}
+				if obj := h.Object(); obj != nil && obj.Exported() {
+					continue // exported API of the package is a boundary the rules name explicitly
+				}
+				seen[h] = true
+				nv := append(append([]viaStep{}, via...), viaStep{ci, g})
+				out = append(out, callsDeep(h, glob, nv, seen, depth+1)...)
+				delete(seen, h)
 			}
 		}
 	}
@@ -171,8 +289,7 @@ func atCalls(c *core.Ctx, rule, fnSpec, calleeGlob string, reqs []Req) int {
 	c.Count("call_sites", len(sites))
 	byLabel := map[string]int{}
 	for _, s := range sites {
-		a := c.E.Analyze(s.Fn)
-		facts := a.FactsAt(s.Instr)
+		facts := s.Facts(c)
 		byLabel[s.Label]++
 		inst := fmt.Sprintf("%s#%d", s.Label, byLabel[s.Label])
 		for _, r := range reqs {
@@ -184,7 +301,7 @@ func atCalls(c *core.Ctx, rule, fnSpec, calleeGlob string, reqs []Req) int {
 			if k, ok := facts.Has(r.Pat); ok {
 				c.OK(rule, construct, c.P.Pos(s.Instr.Pos()), clip(k))
 			} else {
-				c.Fail(rule, construct, c.P.Pos(s.Instr.Pos()), fmt.Sprintf("call of %s in %s is reachable without fact %q (%s) — %s", s.Label, ens.SSAFuncName(s.Fn), r.Pat, r.Name, r.Why))
+				c.Fail(rule, construct, c.P.Pos(s.Instr.Pos()), fmt.Sprintf("call of %s in %s%s is reachable without fact %q (%s) — %s", s.Label, ens.SSAFuncName(s.Fn), s.viaText(), r.Pat, r.Name, r.Why))
 			}
 		}
 	}
